@@ -10,9 +10,11 @@ What is read (fail closed on any other shape):
     <Mode>.enabled_steps             must be  [step for step in self.parameters if step.enabled]   (3 classes)
     CustomMode.build                 the two sanity guards ('_' missing, column count) must be there; how
                                      `custom_columns is None` is treated                 -> cf_custom_range_optional
-    convert_custom_data              `len(params) == 1` selects the scalar branch; columns addressed by label
-                                     (custom_data[idx]) or by position (custom_data.iloc[:, idx])
-                                                                                        -> cf_dask_custom_positional
+    convert_custom_data              which test selects the bare-number branch (`len(params) == 1` or
+                                     `params == "_"`, with the matching list handed over by
+                                     CustomMode.create_params)              -> cf_dask_custom_scalar_is_placeholder
+                                     columns addressed by label (custom_data[idx]) or by position
+                                     (custom_data.iloc[:, idx])                         -> cf_dask_custom_positional
   observation.py
     _get_short_dimension_names_new   readout-time special case, short(), `freq > 1`, fallback for shared names,
                                      and whether names that are still shared are replaced by the full key
@@ -152,22 +154,31 @@ def _custom_build(tree) -> bool:
     fail(sel, "CustomMode.build: unknown column selection")
 
 
-def _convert_custom_data(tree) -> bool:
-    """-> cf_dask_custom_positional"""
+def _convert_custom_data(tree) -> tuple[bool, bool]:
+    """-> (cf_dask_custom_positional, cf_dask_custom_scalar_is_placeholder)"""
     fn = find_func(tree, "convert_custom_data")
-    ifs = [n for n in ast.walk(fn) if isinstance(n, ast.If) and _u(n.test) == "len(params) == 1"]
+    tests = {"len(params) == 1": False, "params == '_'": True}
+    ifs = [n for n in ast.walk(fn) if isinstance(n, ast.If) and _u(n.test) in tests]
     if len(ifs) != 1 or not ifs[0].orelse:
-        fail(fn, "convert_custom_data: expected one `if len(params) == 1: ... else: ...`")
+        fail(fn, "convert_custom_data: expected one `if len(params) == 1:` / `if params == '_':` with an else branch")
     node = ifs[0]
+    by_placeholder = tests[_u(node.test)]
     one = [_u(s.value) for s in node.body if isinstance(s, ast.Assign) and _u(s.targets[0]) == "new_custom_data[name]"]
     many = [_u(s.value) for s in ast.walk(ast.Module(body=node.orelse, type_ignores=[]))
             if isinstance(s, (ast.Assign, ast.AnnAssign)) and ".values.tolist()" in _u(s.value or ast.Constant(0))]
     if len(one) != 1 or len(many) != 1:
         fail(node, "convert_custom_data: expected one column read per branch")
+    # what create_params hands over must fit the test: list(step) for the length test, step.values for the placeholder test
+    cp = find_func(tree, "create_params", "CustomMode")
+    handed = [_u(n.value) for n in ast.walk(cp) if isinstance(n, (ast.Assign, ast.AnnAssign))
+              and _u(n.targets[0] if isinstance(n, ast.Assign) else n.target) == "params_custom_list"]
+    want = "[step.values for step in self.enabled_steps]" if by_placeholder else "list(all_steps.values())"
+    if handed != [want]:
+        fail(cp, f"CustomMode.create_params: params_custom_list must be {want}, found {handed}")
     if one[0] == "custom_data[idx]" and many[0] == "custom_data[columns].values.tolist()":
-        return False
+        return False, by_placeholder
     if one[0] == "custom_data.iloc[:, idx]" and many[0] == "custom_data.iloc[:, columns].values.tolist()":
-        return True
+        return True, by_placeholder
     fail(node, f"convert_custom_data: unknown column addressing ({one[0]} / {many[0]})")
 
 
@@ -240,7 +251,7 @@ def render(flags) -> str:
     return (HEADER +
             "From PyxelV Require Import Model.ParamSpace.\n"
             "(* cf_name_fallback_full cf_name_stage3 cf_custom_dims_distinct cf_custom_range_optional "
-            "cf_dask_custom_positional *)\n"
+            "cf_dask_custom_positional cf_dask_custom_scalar_is_placeholder *)\n"
             f"Definition src_cfg : cfg := mkCfg {b}.\n")
 
 
@@ -253,10 +264,10 @@ def translate(repo: Path) -> str:
     stage3 = _dimension_names(obs)
     dims_distinct = _custom_dims(obs)
     range_optional = _custom_build(misc)
-    positional = _convert_custom_data(misc)
-    return render((fallback_full, stage3, dims_distinct, range_optional, positional))
+    positional, by_placeholder = _convert_custom_data(misc)
+    return render((fallback_full, stage3, dims_distinct, range_optional, positional, by_placeholder))
 
 
 # the text for the unchanged tree (after the round-2 repairs); only used to keep a model available for the
 # failing-input search when the translation itself fails
-FALLBACK = render((True, True, True, True, True))
+FALLBACK = render((True, True, True, True, True, True))
